@@ -153,6 +153,31 @@ extern "C" void h_send_iq()
     SendOracle::check(f, t, idEff, toEff);
 }
 
+// two events in a row (integration of the two steps): a valid request is issued, then a reply with its id arrives
+extern "C" void h_send_then_reply()
+{
+    Fixture f;                                   // cfg bit 256: pending ids have exactly 1 unit, so the new 2-unit id is fresh
+    g_sendMode = 0;
+    QString id = vpFixString(2), to = vpFixString(2);
+    QXmppPacket pkt(QByteArray(), true);
+    QXmppPromise<SendResult> pending; g_pendingSend = &pending;
+    auto t = f.mgr->sendIq(std::move(pkt), id, to);
+    vp_assert(!t.isFinished() && f.mgr->hasId(id), "C07 an accepted request is pending");
+    QString tag = QStringLiteral("iq"), ns, nType = QStringLiteral("type"), nId = QStringLiteral("id"), nFrom = QStringLiteral("from");
+    QString type = vp_bool() ? QStringLiteral("result") : QStringLiteral("error"), from = vpSymString(3);
+    QDomElement el; vp_dom_new(&el, &tag, &ns);
+    vp_dom_set_attr(&el, &nType, &type); vp_dom_set_attr(&el, &nId, &id); vp_dom_set_attr(&el, &nFrom, &from);
+    bool ret = f.mgr->handleStanza(el);
+    f.task[2].emplace(t);
+    f.watch(2);
+    f.settle();
+    bool ok = from.isEmpty() || from == to;
+    vp_assert(ret == ok, "C07 the reply is consumed exactly when it comes from the entity the request was sent to (or from the own server)");
+    vp_assert(t.isFinished() == ok && obs[2].done == (ok ? 1 : 0), "C07 the request completes exactly once, and only by a reply from the addressee");
+    vp_assert(f.mgr->hasId(id) == !ok, "C07 the request stays pending after a reply from a stranger and is erased after the genuine one");
+    for (int i = 0; i < 2; i++) if (f.used[i]) f.untouched(i);
+}
+
 // ---------------------------------------------------------------- internal completion path finish(id, result)
 extern "C" void h_finish()
 {
